@@ -64,10 +64,26 @@ pub fn child(dir: &str, filter: &str, slow: bool, stop: bool) -> i32 {
 }
 
 fn scenario(out: &mut Out, scratch: &str, tests: &[T], filter: &str, slow: bool, stop: bool) {
+    scenario_files(out, scratch, &[("tests/test_gen.incn", tests.to_vec())], None, filter, slow, stop);
+}
+
+/// Several test files (given in the order the runner is expected to report them: sorted by path below `tests/`),
+/// optionally with a symbolic link `tests/<link>` -> `<target>` to a directory outside `tests/`.
+fn scenario_files(out: &mut Out, scratch: &str, files: &[(&str, Vec<T>)], symlink: Option<(&str, &str)>, filter: &str, slow: bool, stop: bool) {
     let ws = format!("{scratch}/c16ws");
     let _ = std::fs::remove_dir_all(&ws);
     std::fs::create_dir_all(format!("{ws}/tests")).expect("mkdir");
-    std::fs::write(format!("{ws}/tests/test_gen.incn"), render(tests)).expect("write");
+    for (rel, tests) in files {
+        let path = format!("{ws}/{rel}");
+        if let Some(parent) = std::path::Path::new(&path).parent() {
+            std::fs::create_dir_all(parent).expect("mkdir");
+        }
+        std::fs::write(&path, render(tests)).expect("write");
+    }
+    #[cfg(unix)]
+    if let Some((link, target)) = symlink {
+        std::os::unix::fs::symlink(target, format!("{ws}/tests/{link}")).expect("symlink");
+    }
     let exe = std::env::current_exe().expect("exe");
     let output = std::process::Command::new(exe)
         .args(["c16child", "x", "0", "/dev/null", "tests", filter, if slow { "1" } else { "0" }, if stop { "1" } else { "0" }])
@@ -82,12 +98,14 @@ fn scenario(out: &mut Out, scratch: &str, tests: &[T], filter: &str, slow: bool,
     let mut verdicts = Vec::new();
     let mut summary = String::new();
     for line in stdout.lines() {
-        if let Some(rest) = line.strip_prefix("test_gen.incn::") {
-            let mut it = rest.split_whitespace();
-            if let (Some(name), Some(status)) = (it.next(), it.next()) {
-                verdicts.push(format!("{name}={status}"));
+        if let Some((file, rest)) = line.split_once("::") {
+            if file.ends_with(".incn") && !file.contains(' ') {
+                let mut it = rest.split_whitespace();
+                if let (Some(name), Some(status)) = (it.next(), it.next()) {
+                    verdicts.push(format!("{name}={status}"));
+                }
+                continue;
             }
-            continue;
         }
         if line.contains(" in ") && line.starts_with("====") && line.ends_with("====") {
             let inner = line.trim_matches('=').trim();
@@ -95,8 +113,9 @@ fn scenario(out: &mut Out, scratch: &str, tests: &[T], filter: &str, slow: bool,
         }
     }
     let code = output.status.code().unwrap_or(-1);
+    let all: Vec<T> = files.iter().flat_map(|(_, ts)| ts.iter().cloned()).collect();
     out.case(
-        &format!("c16 run {} {filter} {} {}", enc(tests), slow as u8, stop as u8),
+        &format!("c16 run {} {filter} {} {}", enc(&all), slow as u8, stop as u8),
         &format!("exit={code} verdicts={} summary={}", if verdicts.is_empty() { "-".to_string() } else { verdicts.join(",") }, if summary.is_empty() { "-".to_string() } else { summary }),
     );
     let _ = std::fs::remove_dir_all(&ws);
@@ -151,6 +170,29 @@ pub fn run(out: &mut Out, tier: &str, seed: u64, scratch: &str) {
     let sel = vec![t("test_parse_fast", false, false, false, "pass"), t("test_parse_slow_bad", false, false, true, "assert"), t("test_other", false, false, false, "pass"), t("test_other_slow", false, false, true, "pass")];
     scenario(out, scratch, &sel, "parse", false, false);
     scenario(out, scratch, &sel, "parse", true, false);
+    // the same test name in two files: both are run and reported; a failing one decides the exit status
+    scenario_files(
+        out,
+        scratch,
+        &[("tests/test_alpha.incn", vec![t("test_roundtrip", false, false, false, "pass"), t("test_alpha_only", false, false, false, "pass")]),
+          ("tests/test_beta.incn", vec![t("test_roundtrip", false, false, false, "assert"), t("test_beta_only", false, false, false, "pass")])],
+        None,
+        "-",
+        false,
+        false,
+    );
+    // test files in nested directories and behind a symbolic link to a directory outside the walked one
+    scenario_files(
+        out,
+        scratch,
+        &[("tests/deep/er/test_nested.incn", vec![t("test_nested_bad", false, false, false, "panic")]),
+          ("shared_cases/test_broken.incn", vec![t("test_linked_bad", false, false, false, "assert")]),
+          ("tests/test_main.incn", vec![t("test_main_ok", false, false, false, "pass")])],
+        Some(("shared", "../shared_cases")),
+        "-",
+        false,
+        false,
+    );
     if tier == "thorough" {
         for _ in 0..6 {
             let n = 2 + rng.below(4) as usize;
